@@ -362,7 +362,7 @@ func runR054(c *core.Ctx) {
 	var prefixField *types.Var
 	st := rootT.Type().Underlying().(*types.Struct)
 	for i := 0; i < st.NumFields(); i++ {
-		if st.Field(i).Name() == "prefix" {
+		if core.NameOf(st.Field(i)) == "prefix" {
 			prefixField = st.Field(i)
 		}
 	}
@@ -566,7 +566,7 @@ func runR056(c *core.Ctx) {
 		case *ast.CallExpr:
 			f := core.Callee(inf, x)
 			if f != nil && freshHelpers[f.Origin()] {
-				return true, f.Name()
+				return true, core.NameOf(f)
 			}
 			if id, ok := core.Unparen(x.Fun).(*ast.Ident); ok {
 				if b, ok := inf.Uses[id].(*types.Builtin); ok {
@@ -621,7 +621,11 @@ func runR056(c *core.Ctx) {
 					for _, el := range x.Elts {
 						if kv, ok := el.(*ast.KeyValueExpr); ok {
 							if id, ok := kv.Key.(*ast.Ident); ok {
-								defs[id.Name] = append(defs[id.Name], kv.Value)
+								k := id.Name
+								if fv, ok := inf.Uses[id].(*types.Var); ok {
+									k = core.NameOf(fv)
+								}
+								defs[k] = append(defs[k], kv.Value)
 							}
 						}
 					}
@@ -642,7 +646,7 @@ func runR056(c *core.Ctx) {
 					if sel, ok := core.Unparen(l).(*ast.SelectorExpr); ok {
 						if fv, ok := core.ObjOf(inf, sel).(*types.Var); ok && fv.IsField() {
 							if nn := namedOf(inf.Types[sel.X].Type); nn != nil && nn.Obj() == T {
-								defs[fv.Name()] = append(defs[fv.Name()], x.Rhs[i])
+								defs[core.NameOf(fv)] = append(defs[core.NameOf(fv)], x.Rhs[i])
 							}
 						}
 					}
@@ -651,7 +655,7 @@ func runR056(c *core.Ctx) {
 			return true
 		})
 		if !hasLit && !hasStructCopy {
-			c.Unknown(rel, fn, "copy of "+T.Name(), fd.Pos(), "neither a composite literal nor a struct copy of the node type")
+			c.Unknown(rel, fn, "copy of "+core.NameOf(T), fd.Pos(), "neither a composite literal nor a struct copy of the node type")
 			return
 		}
 		for i := 0; i < st.NumFields(); i++ {
@@ -661,8 +665,8 @@ func runR056(c *core.Ctx) {
 			default:
 				continue
 			}
-			construct := fmt.Sprintf("%s.%s is a fresh allocation in the copy", T.Name(), f.Name())
-			vs := defs[f.Name()]
+			construct := fmt.Sprintf("%s.%s is a fresh allocation in the copy", core.NameOf(T), core.NameOf(f))
+			vs := defs[core.NameOf(f)]
 			if len(vs) == 0 {
 				why := "reference-typed field not set in the copy literal"
 				if hasStructCopy && !hasLit {
